@@ -22,6 +22,8 @@ class CompMixin:
 
     def comp_domain(self, generators, st, frame):
         """-> (bound consts, guard terms, scratch state, facts-start-index)"""
+        # the first iterable cannot depend on the bound variables: evaluate it in the real state
+        first_iter = self.ev1(generators[0].iter, st, frame)
         self._comp_fresh_start = len(_core.FRESH_LOG)
         s = st.fork()
         s.locals = dict(st.locals)
@@ -32,7 +34,7 @@ class CompMixin:
         self._comp_trig = []     # one trigger term per generator
         listgen = None
         for gi, g in enumerate(generators):
-            itv = self.ev1(g.iter, s, frame)
+            itv = first_iter if gi == 0 else self.ev1(g.iter, s, frame)
             uid = next(_n)
             if isinstance(itv, FuncV) and itv.kind in ('items', 'values'):
                 c = itv.cont
